@@ -21,15 +21,20 @@ type funcMinMax = func(box Box, context *layoutContext, containingBlock containi
 func handleMinMaxWidth(function funcMinMax) funcMinMax {
 	wrapper := func(box Box, context *layoutContext, containingBlock containingBlock) (bool, pr.Float) {
 		computedMarginL, computedMarginR := box.Box().MarginLeft, box.Box().MarginRight
+		// the function may shift the box (rtl over-constrained widths): each
+		// run must start from the same position
+		positionX := box.Box().PositionX
 		res1, res2 := function(box, context, containingBlock)
 		if box.Box().Width.V() > box.Box().MaxWidth.V() {
 			box.Box().Width = box.Box().MaxWidth
 			box.Box().MarginLeft, box.Box().MarginRight = computedMarginL, computedMarginR
+			box.Box().PositionX = positionX
 			res1, res2 = function(box, context, containingBlock)
 		}
 		if box.Box().Width.V() < box.Box().MinWidth.V() {
 			box.Box().Width = box.Box().MinWidth
 			box.Box().MarginLeft, box.Box().MarginRight = computedMarginL, computedMarginR
+			box.Box().PositionX = positionX
 			res1, res2 = function(box, context, containingBlock)
 		}
 		return res1, res2
